@@ -307,17 +307,9 @@ def queriesOf (tb : Table) (p : Prog) (inp : Input) (i : Instr) (t : Thread) (st
     | .strptime =>
       (match peekString o st dead stack with
        | some (layout, r1) =>
-         (match r1 with
-          | .str s :: _ => [qTp layout s]
-          | .int g :: r2 =>
-            (match peekInt o st dead r2 with
-             | some (re, _) =>
-               (match (lookupCaps t.caps re.toNat).bind (fun gs => gs[g.toNat]?) with
-                | some s => [qTp layout s]
-                | none => [])
-             | none => [])
-          | _ :: _ => [qTp layout []]
-          | [] => [])
+         (match peekString o st dead r1 with
+          | some (s, _) => [qTp layout s]
+          | none => [])
        | none => [])
     | _ => []
   generic ++ specific
